@@ -93,4 +93,47 @@ Proof.
   unfold eval. ring.
 Qed.
 
+
+(* partial contraction over the k leading modes *)
+Lemma chain_firstn (cs : net) : forall k r, chain r cs = true -> chain r (firstn k cs) = true.
+Proof. induction cs as [|c cs IH]; intros [|k] r H; simpl in *; auto.
+  apply andb_true_iff in H. destruct H as [H1 H2]. rewrite H1. simpl. auto. Qed.
+
+Lemma same_shape_firstn (a : net) : forall b k, same_shape a b = true ->
+  same_shape (firstn k a) (firstn k b) = true.
+Proof. induction a as [|x a IH]; intros [|y b] [|k] H; simpl in *; try discriminate; auto.
+  apply andb_true_iff in H. destruct H as [H1 H2]. rewrite H1. simpl. auto. Qed.
+
+Lemma eval_split (a : net) k idx ia : a <> [] -> (k <= length a)%nat -> length idx = k -> (0 < k)%nat ->
+  eval a (idx ++ ia) =
+  sumn (match a with c :: _ => rl c | [] => 1%nat end)
+       (evalv (firstn k a) idx (evalv (skipn k a) ia ones)).
+Proof.
+  intros Hne Hk Hl Hpos. destruct a as [|c a]; [congruence|]. unfold eval.
+  apply sumn_ext. intros p _.
+  rewrite <- (firstn_skipn k (c :: a)) at 1.
+  apply evalv_app. rewrite firstn_length. lia.
+Qed.
+
+Theorem dot_partial_sound (k : nat) (a b : net) (ia ib : list nat) :
+  a <> [] -> b <> [] -> (0 < k)%nat -> (k <= length a)%nat -> (k <= length b)%nat ->
+  chain (match a with c :: _ => rl c | [] => 1%nat end) a = true ->
+  chain (match b with c :: _ => rl c | [] => 1%nat end) b = true ->
+  same_shape (firstn k a) (firstn k b) = true ->
+  dot_partial k a b ia ib =
+  sumidx (sshape (firstn k a)) (fun idx => eval a (idx ++ ia) * eval b (idx ++ ib)).
+Proof.
+  intros Ha Hb Hk Hka Hkb Hca Hcb Hs. unfold dot_partial.
+  rewrite (lrun_sound (firstn k a) (firstn k b) _ _ onesM _ _
+             (chain_firstn a k _ Hca) (chain_firstn b k _ Hcb) Hs).
+  assert (G: forall (sh : list nat) (f g : list nat -> K),
+             (forall idx, length idx = length sh -> f idx = g idx) -> sumidx sh f = sumidx sh g).
+  { induction sh as [|d sh IH]; intros f g H; cbn [sumidx]; [apply H; reflexivity|].
+    apply sumn_ext. intros i _. apply IH. intros idx Hl. apply H. simpl. lia. }
+  apply G. intros idx Hl. rewrite bf_ones.
+  unfold sshape in Hl. rewrite map_length, firstn_length in Hl.
+  rewrite (eval_split a k idx ia), (eval_split b k idx ib); auto; try lia.
+  ring.
+Qed.
+
 End DotP.
